@@ -84,8 +84,31 @@ nothing and adds nothing: the result is exactly the existing files that match th
 theorem resolve_eq_filter (W : List Str) (isFile : Str → Bool) (expr : Str)
     (h : isFile (stripScheme expr) = false) :
     localResolve W isFile expr =
-      W.filter fun f => globMatch (effective expr) f || globMatch (partsPattern (effective expr)) f := by
+      (W.filter fun f => globMatch (effective expr) f || globMatch (partsPattern (effective expr)) f).map
+        (unanchor (stripScheme expr)) := by
   exact localResolve_not_file W isFile expr h
+
+-- OBLIGATION: PysparklingVerif.C20.resolved_names_as_spelled
+/-- the resolved names are spelled as the item spells them: for an item that had to be anchored at `./` for the walk
+(its literal prefix names no directory) every resolved name `f` is the walked path `./f` without that `./`; otherwise it is
+the walked path itself. (With the `./` left in, `sorted()` over the names of several items put `./x.dat` before `a.txt`.) -/
+theorem resolved_names_as_spelled (W : List Str) (isFile : Str → Bool) (expr : Str)
+    (h : isFile (stripScheme expr) = false) (f : Str) (hf : f ∈ localResolve W isFile expr) :
+    (if (literalPrefix (stripScheme expr)).contains '/' then f ∈ W else "./".toList ++ f ∈ W) := by
+  rw [resolve_eq_filter W isFile expr h, List.mem_map] at hf
+  obtain ⟨g, hg, rfl⟩ := hf
+  rw [List.mem_filter] at hg
+  obtain ⟨hgW, hm⟩ := hg
+  have hspec := unanchor_spec (stripScheme expr) g hm
+  cases hs : (literalPrefix (stripScheme expr)).contains '/' with
+  | true =>
+    rw [hs] at hspec
+    simp only [if_true] at hspec ⊢
+    rw [hspec]; exact hgW
+  | false =>
+    rw [hs] at hspec
+    simp only [Bool.false_eq_true, if_false] at hspec ⊢
+    rw [hspec]; exact hgW
 
 -- OBLIGATION: PysparklingVerif.C20.resolve_file_item
 /-- an item naming an existing file resolves to that file -/
@@ -98,10 +121,13 @@ theorem no_match_empty (W : List Str) (isFile : Str → Bool) (expr : Str)
     (h : isFile (stripScheme expr) = false)
     (hn : ∀ f ∈ W, globMatch (effective expr) f = false ∧ globMatch (partsPattern (effective expr)) f = false) :
     localResolve W isFile expr = [] := by
-  rw [resolve_eq_filter W isFile expr h, List.filter_eq_nil_iff]
-  intro f hf
-  obtain ⟨h1, h2⟩ := hn f hf
-  simp [h1, h2]
+  rw [resolve_eq_filter W isFile expr h]
+  have hnil : (W.filter fun f => globMatch (effective expr) f || globMatch (partsPattern (effective expr)) f) = [] := by
+    rw [List.filter_eq_nil_iff]
+    intro f hf
+    obtain ⟨h1, h2⟩ := hn f hf
+    simp [h1, h2]
+  rw [hnil, List.map_nil]
 
 -- OBLIGATION: PysparklingVerif.C20.dataset_dir_parts_only
 /-- an item naming a saved dataset directory `d` (no wildcard in `d`) selects its `part*` files and never
@@ -159,8 +185,18 @@ theorem reader_sorted_order (names : List Str) :
 -- non-vacuity
 example : globMatch "a*/p?rt".toList "abc/x/part".toList = true := by decide +kernel
 example : localResolve ["./tree/a.txt".toList, "./trie/a.txt".toList, "./tree/b.txt".toList] (fun _ => false)
-    "tre?/a.txt".toList = ["./tree/a.txt".toList] := by decide +kernel
+    "tre?/a.txt".toList = ["tree/a.txt".toList] := by decide +kernel
 example : localResolve ["./out/part-00000".toList, "./out/_SUCCESS".toList, "./out2/part-00000".toList] (fun _ => false)
-    "file://out".toList = ["./out/part-00000".toList] := by decide +kernel
+    "file://out".toList = ["out/part-00000".toList] := by decide +kernel
+/-- two items of one expression: the names sort as the paths do (`a.txt` before `x.dat`) -/
+example : readerOrder (resolve (fun _ => ["./a.txt".toList, "./x.dat".toList]) (fun f => f == "a.txt".toList) "a.txt,?.dat".toList)
+    = ["a.txt".toList, "x.dat".toList] := by
+  -- (`List.mergeSort` is defined by well-founded recursion, which `decide +kernel` does not unfold: the resolution is
+  -- computed by the kernel, the two-element sort by its equations)
+  have h : resolve (fun _ => ["./a.txt".toList, "./x.dat".toList]) (fun f => f == "a.txt".toList) "a.txt,?.dat".toList
+      = ["a.txt".toList, "x.dat".toList] := by decide +kernel
+  rw [h]
+  simp [readerOrder, List.mergeSort, List.merge]
+  decide +kernel
 
 end PysparklingVerif.C20
